@@ -928,6 +928,7 @@ func init() {
 				return
 			}
 			c.floor("C14.R1", 14)
+			c13NoAliasDecode(c, "C14.R2")
 			pairingRule(c, g, "C14.R1", nil)
 			// watcher invoked only from clusterState methods, never via go/defer
 			n := 0
@@ -1008,6 +1009,7 @@ func runC11(c *Ctx) {
 	pairingRule(c, g, "C11.R5", map[string]bool{"nodes-delete": true})
 	c11R6(c, g)
 	c11Transitions(c, g)
+	c11FullOnlyOnJoin(c)
 	gsLoopsComplete(c, g, "C11.R8")
 	// routing follows membership
 	c04StatusRules(c, "C11.R6")
@@ -1726,4 +1728,32 @@ func foundBreak(b, sb, hdr *ssa.BasicBlock) bool {
 		}
 	}
 	return false
+}
+
+// c11FullOnlyOnJoin (C11.R11): the "push every node the peer did not name"
+// form of Delta is used only to answer a join stream. Used for ordinary digests
+// it hands a node that has expired a departed peer that peer's full state back
+// from any survivor that has not expired it yet, so the departed node is
+// re-learned and never forgotten.
+func c11FullOnlyOnJoin(c *Ctx) {
+	p := c.P
+	n := 0
+	for _, fn := range pkgFuncs(p, "pkg/gossip") {
+		for _, g := range withAnon(fn) {
+			allInstrs(g, func(i ssa.Instruction) {
+				cl, ok := i.(*ssa.Call)
+				if !ok || !strings.HasSuffix(commonName(&cl.Call), "clusterState).Delta") || len(cl.Call.Args) < 3 {
+					return
+				}
+				n++
+				full, isK := constBool(cl.Call.Args[2])
+				onStream := fn.Signature.Recv() != nil && strings.HasSuffix(fn.Signature.Recv().Type().String(), "streamListener")
+				c.check(isK && (!full || onStream), "C11.R11", fnName(fn)+"/full-delta-only-on-join", cl.Pos(), "Delta(digest, true) only in the stream join handler; a constant everywhere",
+					"an ordinary (datagram) digest is answered with the full-digest form of Delta, or the flag is computed: nodes the asker has deliberately forgotten (expired) are pushed back to it")
+			})
+		}
+	}
+	if n == 0 {
+		c.fail("C11.R11", "Delta-call-sites", token.NoPos, "no call of clusterState.Delta found")
+	}
 }
